@@ -6,6 +6,7 @@ import (
 	"fmt"
 	"math/rand"
 	"strings"
+	"sync"
 	"time"
 
 	"github.com/gammazero/nexus/v3/stdlog"
@@ -98,6 +99,10 @@ type dealer struct {
 
 	actionChan chan func()
 	stopped    chan struct{}
+
+	// Tracks the goroutines that wait for call timeouts, so that close can
+	// wait for them before closing actionChan.
+	callTimers sync.WaitGroup
 
 	// Generate registration IDs.
 	idGen *wamp.IDGen
@@ -402,6 +407,21 @@ func (d *dealer) removeSession(sess *wamp.Session) {
 
 // close stops the dealer, letting already queued actions finish.
 func (d *dealer) close() {
+	// Stop the timers of calls that are still pending and wait for their
+	// goroutines. A timer that expired later would submit its cancellation to
+	// the closed action channel, which panics.
+	done := make(chan struct{})
+	d.actionChan <- func() {
+		for _, invk := range d.invocations {
+			if invk.timerCancel != nil {
+				invk.timerCancel()
+			}
+		}
+		close(done)
+	}
+	<-done
+	d.callTimers.Wait()
+
 	close(d.actionChan)
 	<-d.stopped
 	if d.debug {
@@ -913,7 +933,9 @@ func (d *dealer) syncCall(caller *wamp.Session, msg *wamp.Call) {
 		// Start goroutine to cancel pending call on timeout. Works like Cancel
 		// with mode=killnowait, and includes an error message argument "call
 		// timeout"
+		d.callTimers.Add(1)
 		go func() {
+			defer d.callTimers.Done()
 			<-timerCtx.Done()
 			if errors.Is(timerCtx.Err(), context.Canceled) {
 				// Timer canceled. Got response from callee, or caller canceled
